@@ -22,7 +22,7 @@ env.import_adaptix()
 
 from hypothesis import strategies as st  # noqa: E402
 
-from adaptix import DebugTrail, ExtraForbid, NameStyle, ProviderNotFoundError, Retort, name_mapping  # noqa: E402
+from adaptix import DebugTrail, ExtraForbid, NameStyle, P, ProviderNotFoundError, Retort, name_mapping  # noqa: E402
 from adaptix.conversion import get_converter  # noqa: E402
 from adaptix.struct_trail import get_trail  # noqa: E402
 from props.c18_enum_flag import ref_style  # noqa: E402
@@ -293,6 +293,8 @@ def flat_error(exc):
 
 
 def check_case(ctx: runner.Ctx, case):  # noqa: C901, PLR0912, PLR0915
+    if case.get("renamed"):
+        return check_renamed(ctx, case)
     spec, recipe = case["spec"], case["recipe"]
     kinds = [k for k in KINDS if applicable(spec, k)]
     if recipe.get("as_list"):
@@ -404,12 +406,104 @@ def check_case(ctx: runner.Ctx, case):  # noqa: C901, PLR0912, PLR0915
                               f"{head}: source {fieldwise(src, ks, spec)!r}; result {fieldwise(res, kd, spec)!r}")
 
 
+# ------------------------------------------------------------------------------------ parameter name != field id
+# attrs strips the underscore of a private attribute for the constructor parameter (``_secret`` -> ``secret``) and knows
+# explicit aliases; a pydantic field with an alias is passed by the alias.  Loader and converter must call the
+# constructor with the *parameter* name, which only matters where the argument goes by keyword: a keyword-only
+# attribute, or one that follows an optional attribute left out of the call.
+RENAMED_MODELS = {
+    "dc_plain": ("@dataclasses.dataclass\nclass {n}:\n    a: int\n    _secret: int\n", {"a": "a", "_secret": "_secret"}),
+    "dc_kw": ("@dataclasses.dataclass\nclass {n}:\n    a: int\n    _secret: int = dataclasses.field(kw_only=True)\n",
+              {"a": "a", "_secret": "_secret"}),
+    "attrs_pos": ("@attrs.define\nclass {n}:\n    a: int\n    _secret: int\n", {"a": "a", "_secret": "_secret"}),
+    "attrs_kw": ("@attrs.define\nclass {n}:\n    a: int\n    _secret: int = attrs.field(kw_only=True)\n",
+                 {"a": "a", "_secret": "_secret"}),
+    "attrs_after_optional": ("@attrs.define\nclass {n}:\n    a: int\n    opt: int = 5\n    _secret: int = 0\n",
+                             {"a": "a", "_secret": "_secret"}),
+    "attrs_alias_kw": ("@attrs.define\nclass {n}:\n    a: int\n    _secret: int = attrs.field(alias='ex', kw_only=True)\n",
+                       {"a": "a", "_secret": "_secret"}),
+    "pydantic_alias": ("class {n}(pydantic.BaseModel):\n    a: int\n    secret_: int = pydantic.Field(alias='secretAlias')\n",
+                       {"a": "a", "_secret": "secret_"}),
+    "pydantic_alias_default": ("class {n}(pydantic.BaseModel):\n    a: int\n"
+                               "    secret_: int = pydantic.Field(default=0, alias='secretAlias')\n",
+                               {"a": "a", "_secret": "secret_"}),
+}
+
+
+def _renamed_class(key):
+    import attrs  # noqa: PLC0415
+    import pydantic  # noqa: PLC0415
+    name = f"R{next(_uid)}_{key}"
+    ns = {"dataclasses": dataclasses, "attrs": attrs, "pydantic": pydantic}
+    exec(compile(RENAMED_MODELS[key][0].format(n=name), f"<c17 {name}>", "exec", dont_inherit=True), ns)  # noqa: S102
+    return ns[name]
+
+
+def renamed_cases():
+    keys = sorted(RENAMED_MODELS)
+    for k in keys:
+        for dbg in (0, 1, 2):
+            yield {"renamed": "load", "dst": k, "debug": dbg}
+    for ks in keys:
+        for kd in keys:
+            yield {"renamed": "convert", "src": ks, "dst": kd}
+
+
+def check_renamed(ctx: runner.Ctx, case):
+    from adaptix.conversion import allow_unlinked_optional, link  # noqa: PLC0415
+    kd = case["dst"]
+    dst = _renamed_class(kd)
+    dmap = RENAMED_MODELS[kd][1]
+    ctx.case([case], True, sample=case, labels=["part:renamed_parameter", f"renamed:{case['renamed']}", f"dst:{kd}"])
+    if case["renamed"] == "load":
+        # private fields are skipped by default: map them explicitly so that they are loaded
+        retort = Retort(debug_trail=DEBUG[case["debug"]],
+                        recipe=[name_mapping(dst, map={dmap["_secret"]: "s"}, skip=())])
+        try:
+            obj = retort.load({"a": 1, "s": 42, **({"opt": 6} if kd == "attrs_after_optional" else {})}, dst)
+            got = {"a": getattr(obj, dmap["a"]), "_secret": getattr(obj, dmap["_secret"])}
+        except Exception as ex:  # noqa: BLE001
+            got = describe(ex)
+        if got != {"a": 1, "_secret": 42}:
+            ctx.violation("renamed_parameter_load", (kd,), case,
+                          f"loading {{'a': 1, 's': 42}} into {kd} (field {dmap['_secret']!r} mapped to key 's'): {got!r}")
+        return
+    ks = case["src"]
+    src = _renamed_class(ks)
+    smap = RENAMED_MODELS[ks][1]
+    recipe = [allow_unlinked_optional(P[dst].opt)] if kd == "attrs_after_optional" else []
+    if smap["_secret"] != dmap["_secret"]:
+        recipe.append(link(P[src][smap["_secret"]], P[dst][dmap["_secret"]]))
+    if ks.startswith("pydantic"):
+        src_obj = src(a=1, secretAlias=42)
+    elif ks.startswith("attrs"):
+        src_obj = src(a=1, **{"ex" if ks == "attrs_alias_kw" else "secret": 42})
+    else:
+        src_obj = src(a=1, _secret=42)
+    try:
+        res = get_converter(src, dst, recipe=recipe)(src_obj)
+        got = {"a": getattr(res, dmap["a"]), "_secret": getattr(res, dmap["_secret"])}
+    except Exception as ex:  # noqa: BLE001
+        got = describe(ex)
+    if got != {"a": 1, "_secret": 42}:
+        ctx.violation("renamed_parameter_convert", (f"{ks.split('_')[0]}->{kd}",), case,
+                      f"converter {ks} -> {kd} must copy a=1 and the private / aliased field = 42: {got!r}")
+
+
 def _norm_err(flat):
     """The model identity inside messages differs by construction; classes, trails and key sets must agree."""
     return flat
 
 
 def explore(ctx: runner.Ctx):
+    n_ren = 0
+    for i, c in enumerate(renamed_cases()):
+        n_ren += 1
+        if i % ctx.nshards == ctx.shard:
+            runner.guarded(ctx, lambda k: check_case(ctx, k), c)
+    ctx.mark_exhaustive(f"renamed parameters: {n_ren} cases = {len(RENAMED_MODELS)} models whose constructor parameter is not "
+                        f"the field id (attrs private / alias, pydantic alias; positional, keyword-only, after a skipped "
+                        f"optional) loaded under 3 debug modes and converted from each other")
     ctx.given(st_case(), lambda c: check_case(ctx, c), ctx.budget(3000, 100000))
 
 
